@@ -189,6 +189,8 @@ def shards(tier):
             out.append(("real", menu, 3, (first,)))
         for first in range(len(op_list(QUICK_MENU, "encoder"))):
             out.append(("encoder", menu, 3, (first,)))
+        for first in range(len(op_list(QUICK_MENU, "child"))):
+            out.append(("child", menu, 3, (first,)))
     else:
         n = len(op_list(MID_MENU, "fresh"))
         for a in range(n):
@@ -200,6 +202,8 @@ def shards(tier):
             out.append(("real", "mid", 4, (a,)))
         for a in range(len(op_list(MID_MENU, "encoder"))):
             out.append(("encoder", "mid", 4, (a,)))
+        for a in range(len(op_list(MID_MENU, "child"))):
+            out.append(("child", "mid", 4, (a,)))
     return out
 
 
@@ -256,6 +260,26 @@ class FreshSystem:
 
     def close(self):
         pass
+
+
+class ChildSystem(FreshSystem):
+    """A registry declared on top of another one (base=...): every registration is made in the base registry, every
+    resolution goes through the child, which has none of its own and answers with what the base resolves *now*."""
+    name = "child"
+
+    def __init__(self):
+        super().__init__()
+        self.base = self.reg
+        self.child = TypeRegistry("verif-child", base=self.base, cache=True)
+
+    def resolve(self, tname):
+        f = self.child.resolve(CLS[tname])
+        return None if f is None else getattr(f, "idx", "foreign")
+
+    def cached(self):
+        both = list(self.base._cache.items()) + [(c, f) for c, f in self.child._cache.items()]
+        return frozenset((c.__name__, getattr(f, "idx", None)) for c, f in both) | \
+            frozenset(("child:" + c.__name__, getattr(f, "idx", None)) for c, f in self.child._cache.items())
 
 
 class RealSystem:
@@ -401,11 +425,11 @@ def replay(system_cls, ops):
 
 
 def make_script(sysname, ops):
-    if sysname == "encoder" or any(k == "rereg" or (k == "reg" and a[5] == "det_lazy") for k, a in ops):
+    if sysname in ("encoder", "child") or any(k == "rereg" or (k == "reg" and a[5] == "det_lazy") for k, a in ops):
         # shared function objects / the detector with a side effect: replayed through this module
         return "\n".join([
             "import sys", "sys.path.insert(0, '/verif')", "from utmc.props import c16", f"ops = {ops!r}",
-            f"s, regs, obs = c16.replay(c16.{ {'fresh': 'FreshSystem', 'real': 'RealSystem', 'encoder': 'EncoderSystem'}[sysname] }, ops)", "s.close()",
+            f"s, regs, obs = c16.replay(c16.{ {'fresh': 'FreshSystem', 'real': 'RealSystem', 'encoder': 'EncoderSystem', 'child': 'ChildSystem'}[sysname] }, ops)", "s.close()",
             "for line in c16.fmt_ops(ops): print(line)",
             "for i, target, exp, act in obs: print('resolve(%s): expected the function of registration %r, got %r' % (target, exp, act))",
             "sys.exit(1 if any(o[2] != o[3] for o in obs) else 0)"]) + "\n"
@@ -464,7 +488,7 @@ def fmt_ops(ops):
 
 def run_shard(shard, tier):
     sysname, menuname, depth, prefix = shard
-    system_cls = {"fresh": FreshSystem, "real": RealSystem, "encoder": EncoderSystem}[sysname]
+    system_cls = {"fresh": FreshSystem, "real": RealSystem, "encoder": EncoderSystem, "child": ChildSystem}[sysname]
     ops_all = op_list(MENUS[menuname], sysname)
     acc = Acc()
     seen = {}   # state -> largest remaining depth it was expanded with
